@@ -61,7 +61,7 @@ DiscardOnBackwards ==
 \* the transcription of compactFilter() agrees with the statement wherever the statement speaks
 CompactionsAgree ==
     \A now \in 0..MaxClock :
-        ~BackInsideWindow(runs, now) => CodeCompact(runs, now) = PropCompact(runs, now)
+        (~BackInsideWindow(runs, now) /\ Sorted(runs)) => CodeCompact(runs, now) = PropCompact(runs, now)
 
 StepsDef == {-1, 0, 1, 2}
 StepsWide == {-3, -1, 0, 1, 2, 3}
